@@ -136,6 +136,11 @@ func (e *Engine) verifyContract(ct *Contract) (rep *FuncReport) {
 			c.oblige("frame:heap", "", tTrue, boolTerm(len(bad) == 0), fd.Pos(), "no store to heap fields other than the declared ones; undeclared: "+strings.Join(dedup(bad), ","))
 		}
 	}
+	// frame: package-level variables are only assigned by init functions (shared mutable state leaks between calls)
+	if !strings.HasPrefix(ct.FuncName, "init") {
+		c.oblige("frame:global", "", tTrue, boolTerm(len(c.globalWrites) == 0), c.globalWritePos,
+			"no assignment to package-level variables outside init; assigned: "+strings.Join(dedup(c.globalWrites), ","))
+	}
 	rep.Status = "generated"
 	rep.obls = c.obls
 	rep.NumObl = len(c.obls)
@@ -179,12 +184,47 @@ func (e *Engine) runFunc(c *Ctx, ct *Contract, fd *ast.FuncDecl) {
 	body := fd.Body
 	// iterator constructors: `return func(yield ...) {...}` with a `yields` contract
 	if ct.Yields != "" {
-		if len(body.List) != 1 {
-			panic(unsupported("iterator constructor body is not a single return"))
+		if len(body.List) < 1 {
+			panic(unsupported("iterator constructor body is empty"))
 		}
-		rs, ok := body.List[0].(*ast.ReturnStmt)
+		rs, ok := body.List[len(body.List)-1].(*ast.ReturnStmt)
 		if !ok || len(rs.Results) != 1 {
-			panic(unsupported("iterator constructor body is not a single return"))
+			panic(unsupported("iterator constructor does not end in a single return"))
+		}
+		if len(body.List) > 1 {
+			// statements before `return func(yield ...)`: executed once per constructor call. Variables they
+			// declare and the iterator body MODIFIES are state shared between invocations of the returned
+			// iterator (and survive an early stop): their value at the start of an iteration is arbitrary.
+			x.entry = st.clone()
+			pre := x.execBlock(body.List[:len(body.List)-1], st)
+			if pre == nil {
+				panic(unsupported("iterator constructor prefix does not fall through"))
+			}
+			st = pre
+			if fl0, isFL := rs.Results[0].(*ast.FuncLit); isFL {
+				ms := x.modifiedIn(fl0.Body)
+				shared := map[types.Object]bool{}
+				for o := range ms.vars {
+					shared[o] = true
+				}
+				for o := range ms.partial {
+					shared[o] = true
+				}
+				for o := range ms.touched {
+					shared[o] = true
+				}
+				var names []string
+				for o := range shared {
+					if _, ok := st.vars[o]; ok && o.Pos() < fl0.Pos() && o.Pos() > fd.Body.Lbrace {
+						st.vars[o] = c.freshVal("shared."+o.Name(), o.Type(), nil)
+						names = append(names, o.Name())
+					}
+				}
+				if len(names) > 0 {
+					sort.Strings(names)
+					c.notes = append(c.notes, "variables declared outside the iterator body and modified inside it are shared between invocations (arbitrary at entry): "+strings.Join(names, ","))
+				}
+			}
 		}
 		fl, ok := rs.Results[0].(*ast.FuncLit)
 		if !ok {
@@ -613,7 +653,7 @@ func (e *Engine) smtText(o *Oblig, extra string, splitCase string) string {
 	if usesStr {
 		b.WriteString("(declare-sort Str 0)\n(declare-fun slen (Str) Int)\n(declare-fun sat (Str Int) Int)\n(declare-const str!empty Str)\n")
 		b.WriteString("(assert (= (slen str!empty) 0))\n")
-		b.WriteString("(assert (forall ((s Str)) (! (>= (slen s) 0) :pattern ((slen s)))))\n")
+		b.WriteString("(assert (forall ((s Str)) (! (and (>= (slen s) 0) (<= (slen s) 72057594037927936)) :pattern ((slen s)))))\n")
 		b.WriteString("(assert (forall ((s Str) (i Int)) (! (and (<= 0 (sat s i)) (<= (sat s i) 255)) :pattern ((sat s i)))))\n")
 		b.WriteString("(declare-fun str!cat (Str Str) Str)\n(declare-fun str!sub (Str Int Int) Str)\n")
 		if c.used["str!ext"] {
